@@ -9,6 +9,7 @@ J('pool.min1.max2.t2', 1, 2, 2, 1, 1, tier='thorough', to=3400)
 J('pool.min1.max1.t1.P3', 1, 1, 1, 3, 1, tier='thorough', to=3400)
 JOBS.append(Job('pool.fifo.second_life', 'C05/thread_pool.cpp', 'h_pool_fifo', 'B', opts={'preempt': 1, 'timeouts': 1}, reach=['pool_fifo'], timeout=1700, clause='initialize-cleanup-initialize, then 4 tasks on a busy single worker, cancel the second: FIFO order, cancelled task never runs, accepted tasks do run (else the waiting loop thread deadlocks)'))
 JOBS.append(Job('pool.prio', 'C05/thread_pool.cpp', 'h_pool_prio', 'B', opts={'preempt': 0, 'timeouts': 1}, reach=['pool_prio'], timeout=1700, clause='3 tasks with symbolic priorities in [-3,3] (out-of-range values included) waiting behind a busy single worker run by (clamped priority, submission order)'))
+JOBS.append(Job('pool.retire', 'C05/thread_pool.cpp', 'h_pool_retire', 'B', opts={'preempt': 2, 'timeouts': 1}, reach=['pool_retire'], timeout=1700, clause='min 0 / max 1: two tasks submitted one after the other, the application waiting for each: a task submitted while the only worker retires still gets executed (no starvation), <= 2 preemptions'))
 JOBS.append(Job('wt.t1', 'C05/work_thread.cpp', 'h_wt', 'B', opts={'preempt': 2, 'timeouts': 1}, reach=['wt'], timeout=1700, clause='WorkThread: one task, loop thread does {nothing, status query, cancel} then cleanup: every schedule with <= 2 preemptions; deadlock and happens-before race check'))
 JOBS.append(Job('wt.t1.strict', 'C05/work_thread.cpp', 'h_wt', 'B', defs={'STRICT': None}, opts={'preempt': 2, 'timeouts': 1}, reach=['wt'], timeout=1700, clause='WorkThread: a not-found answer (status or cancel) is compared with what had happened at that moment: the body has run already, or never runs'))
 JOBS.append(Job('pool.t1.strict', 'C05/thread_pool.cpp', 'h_pool', 'B', defs={'MINT': 1, 'MAXT': 1, 'NTASK': 1, 'STRICT': None}, opts={'preempt': 2, 'timeouts': 1}, reach=['pool'], timeout=1700, clause='ThreadPool (1 worker): a not-found answer is compared with what had happened at that moment'))
